@@ -64,6 +64,11 @@ fn main() {
 							};
 							watchdog::set_context(&line);
 							watchdog::record_begin();
+							// safety net: a panic that escapes the replay of one record (a call into the code under test that
+							// was not individually guarded, or a harness `unwrap` of something the code under test returned)
+							// is data about that record - never the death of the worker
+							let kind = rec["k"].as_str().unwrap_or("").to_string();
+							let caught = std::panic::catch_unwind(std::panic::AssertUnwindSafe(|| {
 							match rec["k"].as_str() {
 								Some("parse_bytes") => parsev::replay_bytes(&mut rep, &rec),
 								Some("parse") => parsev::replay_parse(&mut rep, &rec),
@@ -93,6 +98,27 @@ fn main() {
 								Some("msg") => msgv::replay_msg(&mut rep, &rec),
 								Some(k) => tool_error(&format!("unknown vector kind {k}")),
 								None => (),
+							}
+							}));
+							if let Err(e) = caught {
+								let msg = e.downcast_ref::<&str>().map(|s| s.to_string()).or_else(|| e.downcast_ref::<String>().cloned()).unwrap_or_else(|| "panic".to_string());
+								let props: &[&str] = match kind.as_str() {
+									"parse" | "parse_bytes" => &["C01", "C02", "C03", "C05", "C07", "C11", "C12"],
+									"nest" | "nestb" => &["C01", "C03", "C05", "C07"],
+									"print" | "wide" | "deepprint" => &["C04", "C08", "C13"],
+									"obj" => &["C06"],
+									"canon" => &["C09", "C10"],
+									"conv" | "fragiter" => &["C11"],
+									"uneq" => &["C15"],
+									"ser" | "de" => &["C16", "C17"],
+									"sj" => &["C18"],
+									"macro" => &["C19"],
+									"kind_set" | "kind_ops" | "kind_iter" | "access" => &["C20"],
+									_ => &["X02"],
+								};
+								for p in props {
+									rep.mismatch(&format!("{p}.panic"), serde_json::json!({"what": "replaying this vector panicked outside an individually guarded call (the specification gives every call a result)", "vector": rec, "panic": msg}));
+								}
 							}
 							watchdog::record_end();
 						}
